@@ -19,7 +19,7 @@ import (
 
 func init() {
 	Register(&Scenario{
-		Prop: "C17", Name: "combined-workload",
+		Prop: "C17", Name: "combined-workload", DeadlockDirected: true,
 		NonTrivial: []string{"c17-api-calls"},
 		Build: func(w *World) {
 			pr := BuildProto(w, ProtoOpt{Peers: 2, MinServers: 2, ClientFeats: true,
